@@ -665,7 +665,11 @@ class C16(Prop):
                 for l in ls:
                     if l.startswith('add ') and rnd.random() < 0.3:
                         lines.append('setattr %s %s %s i%d' % (v, l.split()[-2], rnd.choice(['sx', 'sy']), rnd.randint(0, 9)))
-            if pi % 5 == 4:
+            if pi % 10 == 9:
+                # a target that holds nothing (yet / any more)
+                pre = ['new d'] if pi % 20 == 9 else ['new d', 'add d [ ] sGONE -', 'del d sGONE']
+                lines += pre + ['check c16-pre a b d', 'composeinto a b d', 'check c16-post a b d', 'snap d']
+            elif pi % 5 == 4:
                 lines += ['new d', 'add d [ ] sUNRELATED { sz i1 }', 'check c16-pre a b d', 'composeinto a b d', 'check c16-post a b d', 'snap d']
             else:
                 lines += ['check c16-pre a b', 'compose r a b', 'check c16-post a b r', 'snap r']
@@ -802,9 +806,22 @@ class C19(Prop):
                 for p, h in zip(pts, hs):
                     if h is not None:
                         lines.append('setattr c i%d sheight i%d' % (p + 1, h))
-                for d in ((0, 2) if None in hs else (0,)):
+                hi = [s for s in cx if len(s) > 1]
+                if hi and rnd.random() < 0.3:
+                    # a height on a higher simplex too (only the points' heights enter the formula)
+                    s_ = rnd.choice(hi)
+                    if ci % 2 == 0:       # route 'faces': higher simplices carry the names build_lines gave them
+                        lines.append('setattr c i%s sheight i%d' % (''.join(str(p + 1) for p in s_), rnd.randint(0, 5)))
+                for d in (0, 2, 5)[:3 if rnd.random() < 0.5 else 2]:
                     lines += ['check save c', 'q c integrate sheight %d' % d, 'check unchanged c', 'check c19 c sheight %d' % d]
                     cnt += 1
+                if pts and rnd.random() < 0.5:
+                    # the same complex object and the same integrators again after heights changed
+                    for p in rnd.sample(pts, rnd.randint(1, len(pts))):
+                        lines.append('setattr c i%d sheight i%d' % (p + 1, rnd.randint(0, 4)))
+                    for d in (0, 2):
+                        lines += ['q c integrate sheight %d' % d, 'check c19 c sheight %d' % d]
+                        cnt += 1
             lines += ['q a euler']
             scripts.append(lines)
         n = 20 if tier == 'quick' else 500
